@@ -80,8 +80,11 @@ def compare(proc, sv, B, W, ref, got, tol, label):
     if proc in ("gaussian", "poisson"):
         # the optimal prediction is unique (objective strictly convex in the prediction)
         err = np.abs(Bg - Br)
+        if proc == "poisson":
+            # flat likelihood: the prediction error allowed by an objective gap grows like sqrt(capture)
+            tol = np.maximum(tol, 2e-3 * np.sqrt(np.maximum(np.abs(Br), 1.0)))
         check(np.all(err <= tol), f"{label}:prediction-differs",
-              f"{proc}: predicted captures differ from the batch_size=1 result by {err.max():.3g} (tol {tol:.3g}); row {int(np.argmax(err.max(axis=1)))}",
+              f"{proc}: predicted captures differ from the batch_size=1 result by {err.max():.3g} (tol {float(np.min(tol)):.3g}); row {int(np.argmax(err.max(axis=1)))}",
               observed=dict(ref=Br.tolist(), got=Bg.tolist()))
         if sv.n <= sv.m:
             errx = np.abs(Xg - Xr)
@@ -133,14 +136,19 @@ def body_grid(case):
         W = np.random.default_rng(case["seed"] * 100 + 11).uniform(0.5, 2.0, (n, sv.m))
     opt = {} if proc == "excitation" else dict(HIGH)
     tol = TOLS[proc]
+    # memory layout of the caller's arrays varies over the grid (C / Fortran / strided view): it must not matter
+    layout = ("C", "F", "strided")[(n + (bs if isinstance(bs, int) else 0)) % 3]
+    B = gens.with_layout(B, layout)
+    if W is not None:
+        W = gens.with_layout(W, layout)
     try:
-        ref = run_proc(proc, sv, B, W, 1, opt)
+        ref = run_proc(proc, sv, np.ascontiguousarray(B), None if W is None else np.ascontiguousarray(W), 1, opt)
     except Exception as e:  # the reference itself is C04/C07 territory: report it under its own label
         raise Violation(f"grid:reference-exception:{type(e).__name__}", f"{proc} with batch_size=1 raised {type(e).__name__}: {str(e)[:200]}")
     with calling(f"{proc}(batch_size={bs!r}, n_samples={n})"):
         got = run_proc(proc, sv, B, W, bs, opt)
     compare(proc, sv, B, W, ref, got, tol, "grid")
-    labs = [proc, f"sys:{case['system']}", "rich" if case["rich"] else "plain"]
+    labs = [proc, f"sys:{case['system']}", "rich" if case["rich"] else "plain", f"layout:{layout}"]
     bsi = n if bs == "full" else (1 if bs is None else bs)
     if bsi > n:
         labs.append("nt:batch-larger-than-n")
@@ -183,7 +191,8 @@ def gen_case(draw):
     perm = draw(st.permutations(list(range(n))))
     extra = draw(rows_strategy(sysd, 1))[0]
     k = draw(st.integers(0, n - 1))
-    return dict(system=sysd, rows=rows, W=W, proc=proc, batch_size=bs, op=op, perm=list(perm), extra=extra, k=k)
+    return dict(system=sysd, rows=rows, W=W, proc=proc, batch_size=bs, op=op, perm=list(perm), extra=extra, k=k,
+                layout=draw(st.sampled_from(["C", "F", "strided"])))
 
 
 def body_gen(case):
@@ -212,7 +221,9 @@ def body_gen(case):
     if op == "append":
         B2 = np.vstack([B, np.asarray(case["extra"], dtype=float)[None, :]])
         W2 = None if W is None else np.vstack([W, np.ones((1, sv.m))])
-    with calling(f"{proc}(batch_size={bs!r}, n_samples={B2.shape[0]}, rows {op})"):
+    B2 = gens.with_layout(B2, case.get("layout"))
+    W2 = None if W2 is None else gens.with_layout(W2, case.get("layout"))
+    with calling(f"{proc}(batch_size={bs!r}, n_samples={B2.shape[0]}, rows {op}, layout {case.get('layout')})"):
         got = run_proc(proc, sv, B2, W2, bs, opt)
     if op == "append":
         got_cmp = (got[0][:n], got[1][:n])
@@ -221,7 +232,7 @@ def body_gen(case):
     else:
         ref_cmp = (ref[0][idx], ref[1][idx])
         compare(proc, sv, B2, W2, ref_cmp, got, tol, "gen")
-    labs = sv.labels() + [proc, f"op:{op}", "W" if W is not None else "noW"]
+    labs = sv.labels() + [proc, f"op:{op}", "W" if W is not None else "noW", f"layout:{case.get('layout')}"]
     m = B2.shape[0]
     bsi = m if bs == "full" else (1 if bs is None else bs)
     if bsi > m:
